@@ -57,30 +57,31 @@ def harness_dir():
 _built = {}
 
 
-def build_harness():
+def build_harness(bin_name="pvh"):
+    """Build one harness binary (so that a broken binary of another group cannot block this check)."""
     d = harness_dir()
-    if d in _built:
-        return _built[d]
+    if (d, bin_name) in _built:
+        return _built[(d, bin_name)]
     t0 = time.time()
     # the lock file of the repository is the one source of dependency versions
     lock_src = os.path.join(REPO, "Cargo.lock")
     lock_dst = os.path.join(d, "Cargo.lock")
     if not os.path.exists(lock_dst):
         shutil.copy(lock_src, lock_dst)
-    p = subprocess.run(["cargo", "build", "--offline", "--quiet"], cwd=d, env=env_with_tools(),
+    p = subprocess.run(["cargo", "build", "--offline", "--quiet", "--bin", bin_name], cwd=d, env=env_with_tools(),
                        stdout=subprocess.PIPE, stderr=subprocess.STDOUT, text=True)
     if p.returncode != 0:
         sys.stdout.write(p.stdout[-6000:])
         raise ToolError("harness build failed (does /repo still compile with features alpha,llvm-sys,penne_verif?)")
-    exe = os.path.join(d, "target", "debug", "pvh")
-    log("[build] harness built in %.1fs -> %s" % (time.time() - t0, exe))
-    _built[d] = exe
+    exe = os.path.join(d, "target", "debug", bin_name)
+    log("[build] harness binary %s built in %.1fs" % (exe, time.time() - t0))
+    _built[(d, bin_name)] = exe
     return exe
 
 
 def pvh(args, timeout=3600, check=True, env=None, exe_name="pvh"):
     """Run a harness binary (harness/src/bin/<exe_name>.rs)."""
-    exe = os.path.join(os.path.dirname(build_harness()), exe_name)
+    exe = build_harness(exe_name)
     p = subprocess.run([exe] + [str(a) for a in args], stdout=subprocess.PIPE, stderr=subprocess.PIPE,
                        text=True, timeout=timeout, env=env_with_tools(env))
     if check and p.returncode != 0:
